@@ -203,7 +203,7 @@ class Ctx:
         self.ghost = {}
         self.opts = opts or {}
         self.solver = z3.Solver()
-        self.solver.set("timeout", int(self.opts.get("feas_timeout_ms", 1500)))
+        self.solver.set("timeout", int(self.opts.get("feas_timeout_ms", 1500)) or 1)
         self.notes = []
         self.solver_secs = 0.0
         self.axioms = []  # global axioms (quantified facts of spec functions) — part of every VC
@@ -294,6 +294,8 @@ class Ctx:
         d = simplify_bool(cond)
         if d is not None:
             return d
+        if self.opts.get("feas_timeout_ms", 1500) == 0:
+            return True  # no pruning: every syntactic path is explored (sound over-approximation)
         return self.feasible(cond)
 
     def branch(self, cond, label="if"):
@@ -327,6 +329,8 @@ class Ctx:
         self.assume(goal)
 
     def cover(self, name, info=None):
+        if self.opts.get("no_covers"):
+            return
         vc = VC(name, self.axioms + self.pc, z3.BoolVal(True), self.path_sig(), kind="cover", info=info)
         self.vcs.append(vc)
 
@@ -355,6 +359,7 @@ def explore(run, opts=None, max_paths=20000):
             out = ("unsupported", str(e))
         results.append((ctx, out))
         work.extend(ctx.alternatives)
+        ctx.solver = None  # free the incremental solver of a finished path
         if len(results) > max_paths:
             raise Unsupported(f"path explosion (> {max_paths} paths)")
     return results
